@@ -277,6 +277,40 @@ def find_path(start, goals, cut_edge=None, cut_node=None, follow_exc=True):
     return None
 
 
+class _NonNull(object):
+    """Abstract value: some object that is not None (truthiness
+    unknown)."""
+
+    def __repr__(self):
+        return '<nonnull>'
+
+    def __lt__(self, other):
+        return False
+
+
+NONNULL = _NonNull()
+
+
+def state_env(state):
+    return dict(state[1])
+
+
+def _never_none(expr):
+    """expr evaluates to something other than None."""
+    if isinstance(expr, ast.Constant):
+        return expr.value is not None and not isinstance(expr.value, bool)
+    if isinstance(expr, (ast.List, ast.Tuple, ast.Set, ast.Dict,
+                         ast.ListComp, ast.SetComp, ast.DictComp,
+                         ast.JoinedStr, ast.BinOp)):
+        return True
+    if isinstance(expr, ast.Call):
+        return callee_text(expr) in ('os.path.join', 'str', 'int', 'float',
+                                     'list', 'set', 'dict', 'tuple', 'len',
+                                     'sorted', 'os.path.basename',
+                                     'os.path.dirname', 'os.path.realpath')
+    return False
+
+
 def find_path_cp(graph, start, goals, cut_edge=None, cut_node=None,
                  follow_exc=False):
     """Like find_path but path-sensitive for local boolean flags: names
@@ -299,7 +333,8 @@ def find_path_cp(graph, start, goals, cut_edge=None, cut_node=None,
             return []
         if node.kind == 'test' and edge.kind in ('true', 'false'):
             atom = nzl.atom(node.ast)
-            if atom.key[0] == 'truth' and atom.key[1] in env:
+            if atom.key[0] == 'truth' and atom.key[1] in env and \
+                    env[atom.key[1]] is not NONNULL:
                 val = bool(env[atom.key[1]]) == atom.key[2]
                 if val != (edge.kind == 'true'):
                     return []
@@ -311,17 +346,28 @@ def find_path_cp(graph, start, goals, cut_edge=None, cut_node=None,
                 val = (env[atom.key[1]] is None) == atom.key[3]
                 if val != (edge.kind == 'true'):
                     return []
+            elif atom.key[0] == 'is' and atom.key[2] == 'None' and \
+                    atom.key[1].isidentifier():
+                # remember what the test established about a plain local
+                env[atom.key[1]] = None if (edge.kind == 'true') == \
+                    atom.key[3] else NONNULL
         if node.kind == 'stmt' and isinstance(node.ast, ast.Assign):
             for tgt in node.ast.targets:
                 for name in ast.walk(tgt):
                     if isinstance(name, ast.Name):
                         env.pop(name.id, None)
             if len(node.ast.targets) == 1 and \
-                    isinstance(node.ast.targets[0], ast.Name) and \
-                    isinstance(node.ast.value, ast.Constant) and \
-                    (node.ast.value.value is None or
-                     isinstance(node.ast.value.value, bool)):
-                env[node.ast.targets[0].id] = node.ast.value.value
+                    isinstance(node.ast.targets[0], ast.Name):
+                val = node.ast.value
+                tgt = node.ast.targets[0].id
+                if isinstance(val, ast.Constant) and \
+                        (val.value is None or isinstance(val.value, bool)):
+                    env[tgt] = val.value
+                elif _never_none(val):
+                    env[tgt] = NONNULL
+                elif isinstance(val, ast.Name) and val.id in state_env(
+                        state):
+                    env[tgt] = state_env(state)[val.id]
         elif node.kind in ('stmt', 'for', 'with_enter'):
             for name in N.assigned_targets(node) | N.for_targets(node):
                 env.pop(name, None)
